@@ -225,8 +225,10 @@ def run(ctx):
             if out_dt in ("uint32", "uint64") and rng.random() < 0.4 and C >= 1:
                 enc = "compressed_segmentation"
             if kind != "rgb" and rng.random() < 0.35:
-                input_max = float(rng.choice([255, 510, 1020, 1000, 65535, 70000]))
+                input_max = float(rng.choice([255, 510, 1020, 1000, 65535, 70000, 0, 0]))
                 input_min = float(rng.choice([0, -255, 100])) if rng.random() < 0.5 else None
+                if input_max == 0:
+                    input_min = float(rng.choice([-255, -1020, -128]))     # all-negative window: [input_min, 0]
                 if np.dtype(out_dt).kind == "f":
                     omin, omax = 0, 1
                 else:
